@@ -5,8 +5,9 @@
 (* Every explored zone is also a set of S->I cases.                        *)
 EXTENDS Denial, TLC, Json
 
-VARIABLES kind, zone, recs, step, nsecOut, n3Out, rk, adds
-vars == <<kind, zone, recs, step, nsecOut, n3Out, rk, adds>>
+VARIABLES kind, zone, recs, step, nsecOut, n3Out, rk, adds,
+          cf           \* the NSEC3 configuration under construction: [c, f0, script]
+vars == <<kind, zone, recs, step, nsecOut, n3Out, rk, adds, cf>>
 
 CONSTANTS MaxK,        \* owner names besides the apex
           Thorough,    \* BOOLEAN: larger name universe / type-set menu
@@ -45,6 +46,10 @@ Recs(n, ts) == {[n |-> n, t |-> t] : t \in ts}
 L63(k) == [i \in 1..63 |-> (IF k = 2 THEN 65 ELSE 97) + ((i + k) % 5)]
 LN(n) == [i \in 1..n |-> 48 + (i % 10)]
 Deep(n) == [i \in 1..n |-> <<97 + (i % 3)>>]            \* n one-octet labels
+\* an ENT that leads only to an insecure delegation, a secure one next to it
+OptOutZone ==
+  Recs(<<la, lb, ex>>, {T_NS}) \cup Recs(<<la, la, lb, ex>>, {T_A}) \cup Recs(<<lb, la, ex>>, {T_NS, T_DS})
+    \cup Recs(<<lb, lb, la, ex>>, {T_A}) \cup Recs(<<Star, ex>>, {T_A, T_CAA})
 \* hand-picked larger zones
 ExtraZones == {
   \* glue and occluded data after the last authoritative name, a name after the zone
@@ -53,9 +58,7 @@ ExtraZones == {
   \* an ENT shared by two branches below another ENT; case variants
   Recs(<<la, la, la, ex>>, {T_A}) \cup Recs(<<lb, lA, la, ex>>, {T_TXT}) \cup Recs(<<lb, ex>>, {T_A})
     \cup Recs(<<la, lb, ex>>, {T_A}) \cup Recs(<<Star, lB, ex>>, {T_TXT}),
-  \* an ENT that leads only to an insecure delegation, a secure one next to it
-  Recs(<<la, lb, ex>>, {T_NS}) \cup Recs(<<la, la, lb, ex>>, {T_A}) \cup Recs(<<lb, la, ex>>, {T_NS, T_DS})
-    \cup Recs(<<lb, lb, la, ex>>, {T_A}) \cup Recs(<<Star, ex>>, {T_A, T_CAA}),
+  OptOutZone,
   \* a chain of two ENTs below a data-owning name that is not the apex
   \* (a.b.a.b.ex with data at b.ex: ENTs a.b.ex and b.a.b.ex), next to an
   \* ENT chain hanging off the apex
@@ -118,6 +121,20 @@ ParamZones ==
       \cup Recs(<<Star, lc, lb, ex>>, {T_TXT}),
     Recs(<<Ex>>, {T_SOA, T_NS}) \cup Recs(<<lb, ex>>, {T_NS, T_DS}) \cup Recs(<<la, lb, ex>>, {T_A}) }
 
+\* The Flags octet as INPUT (Nsec3param::new(alg, flags, ..) handed to
+\* GenerateNsec3Config::new): every value 0..255 on a zone with an insecure
+\* delegation below an ENT of its own, a secure delegation, glue and a
+\* wildcard; the edge values on a zone whose ENT leads to an insecure
+\* delegation and to data (all values in the thorough tier).
+FlagZone1 == Recs(Apex, {T_SOA, T_NS}) \cup OptOutZone
+FlagZone2 == Recs(Apex, {T_SOA, T_NS}) \cup Recs(<<la, ex>>, {T_A}) \cup Recs(<<la, lb, Ex>>, {T_NS})
+               \cup Recs(<<Star, lc, lb, ex>>, {T_TXT})
+FlagZones == {FlagZone1, FlagZone2}
+EdgeFlags == {0, 1, 2, 3, 64, 65, 127, 128, 129, 254, 255}
+FlagVals == IF zone = FlagZone1 \/ Thorough THEN FlagOctets ELSE EdgeFlags
+CfgSetters == {"opt_out", "no_exclude"} \cup (IF Thorough THEN {"no_dnskey"} ELSE {})
+Cf0 == [c |-> CfgNew(0), f0 |-> 0, script |-> <<>>]
+
 \* zones the generators must refuse (documented: the apex SOA cannot be
 \* determined): no SOA at all, a SOA only at a delegated child's apex, two
 \* SOA RRs at the apex
@@ -156,7 +173,7 @@ ZoneOk(S, f) ==
 MkZone(av, S, f) == Recs(Apex, av) \cup UNION {Recs(n, f[n]) : n \in S}
 
 Init ==
-  /\ step = "zone" /\ nsecOut = <<>> /\ n3Out = <<>> /\ rk = 0 /\ adds = <<>>
+  /\ step = "zone" /\ nsecOut = <<>> /\ n3Out = <<>> /\ rk = 0 /\ adds = <<>> /\ cf = Cf0
   /\ \/ /\ kind = "zone"
         /\ \/ \E av \in ApexSets : \E S \in SUBSET UNames :
                  /\ Cardinality(S) <= MaxK
@@ -176,7 +193,7 @@ RunNsec ==
   /\ kind = "zone" /\ step = "zone"
   /\ step' = "nsec"
   /\ nsecOut' = [a \in BOOLEAN |-> NsecPass(recs, Arg, a)]
-  /\ UNCHANGED <<kind, zone, recs, n3Out, rk, adds>>
+  /\ UNCHANGED <<kind, zone, recs, n3Out, rk, adds, cf>>
 
 RunNsec3 ==
   /\ kind = "zone" /\ step = "nsec"
@@ -185,7 +202,7 @@ RunNsec3 ==
         /\ LET rf == RankOf(r)
            IN n3Out' = [c \in Configs |-> Nsec3Pass(recs, Arg, c.exclude, c.assume, rf)]
   /\ step' = "nsec3"
-  /\ UNCHANGED <<kind, zone, recs, nsecOut, adds>>
+  /\ UNCHANGED <<kind, zone, recs, nsecOut, adds, cf>>
 
 \* the chain under every parameter set of PM (the hash is uninterpreted: the
 \* model chain is the same, the hashes and their order differ in the replay)
@@ -195,7 +212,7 @@ RunNsec3Params ==
   /\ LET rf == RankOf(1)
      IN n3Out' = [c \in Configs |-> Nsec3Pass(recs, Arg, c.exclude, c.assume, rf)]
   /\ step' = "nsec3"
-  /\ UNCHANGED <<kind, zone, recs, nsecOut, adds>>
+  /\ UNCHANGED <<kind, zone, recs, nsecOut, adds, cf>>
 
 RunBad ==
   /\ kind = "badzone" /\ step = "zone"
@@ -203,15 +220,34 @@ RunBad ==
   /\ nsecOut' = [a \in BOOLEAN |-> NsecPass(recs, Apex, a)]
   /\ LET rf == RankOf(1)
      IN n3Out' = [c \in Configs |-> Nsec3Pass(recs, Apex, c.exclude, c.assume, rf)]
-  /\ UNCHANGED <<kind, zone, recs, rk, adds>>
+  /\ UNCHANGED <<kind, zone, recs, rk, adds, cf>>
 
 BmTypes == {1, 2, 6, 8, 43, 46, 47, 48, 51, 255, 256, 257, 511, 32768, 65280, 65535}
 BmAddType ==
   /\ kind = "bitmap" /\ Len(adds) < MaxAdds
   /\ \E t \in BmTypes : adds' = Append(adds, t)
-  /\ UNCHANGED <<kind, zone, recs, step, nsecOut, n3Out, rk>>
+  /\ UNCHANGED <<kind, zone, recs, step, nsecOut, n3Out, rk, cf>>
+
+\* The configuration as a machine: new(params) with any Flags octet, public
+\* setter calls in any order, then the generator.
+CfgStart ==
+  /\ kind = "zone" /\ step = "nsec" /\ zone \in FlagZones
+  /\ \E f \in FlagVals : cf' = [c |-> CfgNew(f), f0 |-> f, script |-> <<>>]
+  /\ step' = "cfg"
+  /\ UNCHANGED <<kind, zone, recs, nsecOut, n3Out, rk, adds>>
+CfgCall ==
+  /\ step = "cfg"
+  /\ \E s \in CfgSetters \ {cf.script[i] : i \in 1..Len(cf.script)} :
+        cf' = [cf EXCEPT !.c = CfgSet(@, s), !.script = Append(@, s)]
+  /\ UNCHANGED <<kind, zone, recs, step, nsecOut, n3Out, rk, adds>>
+RunNsec3Flags ==
+  /\ step = "cfg"
+  /\ step' = "nsec3f" /\ rk' = 1
+  /\ n3Out' = Nsec3Pass(recs, Arg, GenExcludes(cf.c), cf.c.assume, RankOf(1))
+  /\ UNCHANGED <<kind, zone, recs, nsecOut, adds, cf>>
 
 Next == RunNsec \/ RunNsec3 \/ RunNsec3Params \/ RunBad \/ BmAddType
+        \/ CfgStart \/ CfgCall \/ RunNsec3Flags
 Spec == Init /\ [][Next]_vars
 
 --------------------------------------------------------------------------
@@ -255,8 +291,26 @@ Nsec3Covers ==
              names == N3NamesV(v, Apex, c.exclude)
          IN \A q \in Probes, t \in ProbeTypes :
                Deniable(v, Apex, q, t) => N3Proves(ch, v, names, Apex, q, t)
+\* any Flags octet, any setter script: the pass is the declarative chain of
+\* the configuration (Opt-Out by the BIT), closed, proves every absent probe,
+\* and what the RRs advertise agrees with what the chain leaves out
+Nsec3FlagsOk ==
+  step = "nsec3f" =>
+    LET v    == View(zone, Apex)
+        c    == cf.c
+        ch   == LowChain(n3Out.out)
+        decl == DeclExcludes(c)
+    IN /\ c = CfgRun(cf.f0, cf.script) /\ c.flags \in FlagOctets
+       /\ ~n3Out.err
+       /\ ch = Nsec3ChainV(v, Apex, decl, c.assume, RankOf(1))
+       /\ Closed(ch, Apex)
+       /\ OptOutConsistent(c, v.insecure, Owners(ch))
+       /\ cf.f0 \in EdgeFlags =>
+            \A q \in Probes, t \in ProbeTypes :
+               Deniable(v, Apex, q, t) => N3Proves(ch, v, N3NamesV(v, Apex, decl), Apex, q, t)
+FlagLawsOk == (kind = "bitmap" /\ adds = <<>>) => FlagLaws
 \* the hash orders really are injective
-RanksOk == step = "nsec3" =>
+RanksOk == step \in {"nsec3", "nsec3f"} =>
   LET rf == RankOf(RkOf) IN \A m, n \in DOMAIN rf : m # n => rf[m] # rf[n]
 
 BadZonesRefused ==
@@ -326,19 +380,31 @@ NamesJ(names, P) ==
   THEN [i \in 1..Len(names) |->
           [n |-> names[i], term |-> TermOf(names[i], P), rep |-> Nsec3TermR(names[i], P.salt, P.iters)]]
   ELSE [i \in 1..Len(names) |-> [n |-> names[i], term |-> TermOf(names[i], P)]]
-N3Case(v, ap, arg, zj, soa, c, flagonly, order, P, ctor, allroutes, mode) ==
-  LET owners == N3OwnersV(v, c.exclude)
-      names == SortNames(N3NamesV(v, ap, c.exclude))
-  IN [in  |-> [kind |-> "nsec3", apex |-> arg, recs |-> zj, soa |-> soa, assume |-> c.assume,
+\* g: the configuration (CfgRun(f0, order)): the Flags octet f0 goes into
+\* Nsec3param::new, the setters are called in this order.  Expected: the
+\* declarative chain with Opt-Out decided by the BIT of g.flags, every NSEC3
+\* RR with Flags = g.flags verbatim and opt_out() = that bit; the NSEC3PARAM
+\* RR's Flags one of ParamFlagsAllowed and its opt_out_flag() the bit of
+\* whatever it carries.
+ParamFlagsJ(g) == LET fs == SetToSeq(ParamFlagsAllowed(g))
+                 IN [i \in 1..Len(fs) |-> [f |-> fs[i], opt |-> OptOutBit(fs[i])]]
+N3CaseF(v, ap, arg, zj, soa, g, f0, order, P, ctor, allroutes, mode) ==
+  LET excl == DeclExcludes(g)
+      owners == N3OwnersV(v, excl)
+      names == SortNames(N3NamesV(v, ap, excl))
+  IN [in  |-> [kind |-> "nsec3", apex |-> arg, recs |-> zj, soa |-> soa, assume |-> g.assume,
                setters |-> order, ttlv |-> mode.v, ctor |-> ctor, allroutes |-> allroutes,
-               optout |-> IF c.exclude THEN "exclude" ELSE IF flagonly THEN "flagonly" ELSE "none",
+               optout |-> "script", flags0 |-> f0, paramflags |-> ParamFlagsJ(g),
                salt |-> P.salt, iters |-> P.iters, names |-> NamesJ(names, P)],
       exp |-> [entries |-> [i \in 1..Len(names) |->
                               [n |-> names[i],
-                               types |-> SetToSeq(N3TypesV(v, ap, owners, c.assume, names[i]))]],
+                               types |-> SetToSeq(N3TypesV(v, ap, owners, g.assume, names[i]))]],
                linked |-> TRUE,
-               flags |-> IF c.exclude \/ flagonly THEN 1 ELSE 0,
+               flags |-> EmittedFlags(g), optbit |-> OptOutBit(EmittedFlags(g)),
+               paramflags_ok |-> TRUE,
                ttl |-> Min(soa.ttl, soa.min), paramttl |-> ParamTtl(mode, soa)]]
+N3Case(v, ap, arg, zj, soa, c, flagonly, order, P, ctor, allroutes, mode) ==
+  N3CaseF(v, ap, arg, zj, soa, CfgRun(0, order), 0, order, P, ctor, allroutes, mode)
 EmitNsec3 ==
   (step = "nsec3" /\ rk = 1) =>
     LET v == View(zone, Apex)
@@ -348,6 +414,22 @@ EmitNsec3 ==
     \A c \in Configs : \A flagonly \in {FALSE} \cup (IF c.exclude THEN {} ELSE {TRUE}) :
      \A order \in Orders(Setters(c, flagonly)) :
       PrintT("CASE " \o ToJson(N3Case(v, Apex, Arg, ZoneJ, SoaOf, c, flagonly, order, P, ctor, TRUE, TtlModeOf(c))))
+\* the configuration machine: one case per reached configuration
+EmitFlags ==
+  step = "nsec3f" =>
+    PrintT("CASE " \o ToJson(N3CaseF(View(zone, Apex), Apex, Arg, ZoneJ, SoaOf, cf.c, cf.f0, cf.script,
+                                      [salt |-> SaltOf, iters |-> ItersOf], "new",
+                                      cf.f0 \in EdgeFlags, DefaultTtlMode)))
+\* the accessor pair and the setter on every Flags octet, through every route
+\* to an Nsec3param / Nsec3 (constructor, wire, octets conversion, zone file
+\* text, serde, with_opt_out() on a configuration)
+EmitFlagAccessors ==
+  (kind = "bitmap" /\ adds = <<>>) =>
+    \A f \in FlagOctets : PrintT("CASE " \o ToJson(
+      [in  |-> [kind |-> "n3flags", flags |-> f],
+       exp |-> [flags |-> f, param_opt |-> OptOutBit(f), nsec3_opt |-> OptOutBit(f),
+                set |-> SetOptOutFlag(f), set_opt |-> OptOutBit(SetOptOutFlag(f)),
+                cfg |-> CfgRun(f, <<"opt_out">>).flags]]))
 \* every parameter set: the chain, and every public route to a name's hash
 \* (nsec3_hash, nsec3_default_hash where the parameters are the default ones,
 \* mk_hashed_nsec3_owner_name; the salt built by every Nsec3Salt constructor)
